@@ -104,6 +104,7 @@ func (fs *Store) AddMessage(m storage.Message) (id string, err error) {
 	}
 
 	// Write the message content.
+	crashPoint("add-create-raw", fm.rawPath())
 	file, err := os.Create(fm.rawPath())
 	if err != nil {
 		return "", err
@@ -117,12 +118,14 @@ func (fs *Store) AddMessage(m storage.Message) (id string, err error) {
 		return "", err
 	}
 	_ = r.Close()
+	crashPoint("add-flush-raw", fm.rawPath())
 	if err := w.Flush(); err != nil {
 		// Try to remove the file.
 		_ = file.Close()
 		_ = os.Remove(fm.rawPath())
 		return "", err
 	}
+	crashPoint("add-raw-written", fm.rawPath())
 	if err := file.Close(); err != nil {
 		// Try to remove the file.
 		_ = os.Remove(fm.rawPath())
